@@ -85,6 +85,7 @@ def _stream_tok(rng, intern, nwin):
     return tok, win
 
 
+REUSED = {}
 import logging as _logging
 NULL_HANDLER = _logging.NullHandler()
 PCG_MULT = 0x2360ED051FC65DA44385DF649FCCF645          # numpy's PCG64: state' = state * PCG_MULT + inc (mod 2^128)
@@ -126,6 +127,10 @@ def _streams(rnd, ntriples, nwin):
     triples = triples + rnd.sample(triples, min(len(triples), 6))     # repeats of identical triples, later in the process
     for j, (seed, nch, idx) in enumerate(triples):
         m = CountMCMC() if j % 2 == 0 else AnotherCountMCMC()
+        if j % 4 == 1:
+            m._rng = np.random.default_rng(987654321)          # a model that was constructed with a generator of its own
+        elif j % 4 == 3 and out:
+            m = REUSED.setdefault(type(m).__name__, m)          # the same model object as in an earlier sampling call
         # every third call with debug logging switched on: the generator depends on (seed, n_chains, chain_index), not on how verbose the run is
         import logging
         verbose = j % 3 == 2
@@ -244,6 +249,19 @@ def run(ctx):
         tr, _ = _run("mcmc", b, rnd.randint(1, 3), 2)
         traces.append(tr)
     traces.append(_streams_other_process(rnd))
+    # a model that fails in the middle of a run: the error comes out, or the collection is complete - never a silent short run
+    for fail_at in (1, 4, 9):
+        class Failing(CountMCMC):
+            def step(self, fail_at=fail_at):
+                if self.total + 1 == fail_at:
+                    raise RuntimeError("the sampler diverged")
+                super().step()
+        m = Failing()
+        h = ThetaHolder(n_thetas=3)
+        st, r = outcome(sampling.sample, m, h, 5, n_chains=1, chain_index=0, n_burnin=2, thin=2)
+        if st == "ok" and (not h.is_complete or m.total != 2 + 3 * 2):
+            ctx.violation("sampling.sample returned normally after the model failed at step %d: %d of 3 samples, %d of 8 steps" % (fail_at, len(h.thetas), m.total),
+                          {"kind": "failing-model", "fail_at": fail_at})
     for _ in range(3 if ctx.quick else 20):
         traces.append(_streams(rnd, 5 if ctx.quick else 8, 256 if ctx.quick else 1024))
     _decide(ctx, traces)
